@@ -673,6 +673,10 @@ func (g *c20Gen) tree() *c20Tree {
 	t := &c20Tree{}
 	t.dirs = append(t.dirs, nil) // the root
 	nd := r.Intn(7)
+	large := r.Chance(1, 50) // a tree of the size of a real kernel: a hundred and more source files
+	if large {
+		nd = r.Range(12, 30)
+	}
 	for i := 0; i < nd; i++ {
 		var d []string
 		if r.Chance(1, 4) { // a fresh chain of the chosen depth
@@ -701,6 +705,12 @@ func (g *c20Gen) tree() *c20Tree {
 	testNames := []string{"a_test.go", "bootstrap_test.go", "export_test.go", "x_amd64_test.go"}
 	otherNames := []string{"old.go.bak", "gen.go.tmpl", "rt0.s", "notes.txt", "go", "x.goo", "Makefile", "y.GO", "_notes.txt", "testdata", "_", ".hidden", "vendor", "_obj.txt"} // plain files, whatever their names mean to the go tool as directory names
 	sparse := r.Chance(1, 6) // trees with very few annotations (including none)
+	if large {
+		for i := 0; i < 10; i++ {
+			goNames = append(goNames, fmt.Sprintf("f%d.go", i), fmt.Sprintf("g%d_amd64.go", i))
+		}
+		g.catSeen["large-tree"]++
+	}
 	for _, d := range t.dirs {
 		if len(d) > t.maxDep {
 			t.maxDep = len(d)
@@ -721,6 +731,9 @@ func (g *c20Gen) tree() *c20Tree {
 			return ""
 		}
 		nf := r.Intn(4)
+		if large {
+			nf = r.Range(3, 9)
+		}
 		for i := 0; i < nf; i++ {
 			n := pick(goNames)
 			if n == "" {
@@ -936,7 +949,7 @@ func c20Bucket(n int) string {
 func TestVerifC20(t *testing.T) {
 	run := vlib.Start(t, "C20")
 	defer run.Finish()
-	run.SetRule("case = generated source tree (1-7 directories of depth 0-5, 0-3 scanned .go files per directory, 0-6 annotated functions per file with 1-3 directives each mixed with other directives/prose/block comments, plus look-alikes: annotations in _test.go and non-.go files, on var/const/type/grouped/field/interface-method declarations, on function literals, inside bodies, in block comments, in raw strings, detached by a blank line, trailing the previous line, after a function, ordinary comments mentioning the directive, other go: directives), written to disk; FindRedirects runs 20 times inside it; then FindRedirects + CompleteRedirects run twice from scratch against a synthetic ELF64 image (random section order and padding, .goredirectstbl with 0-3 spare entries, symbol table in random order with every source/destination symbol at a distinct address plus look-alike names) and the file is compared byte for byte with the expected image; non-trivial = expected table has >= 2 entries AND the tree contains >= 1 look-alike AND >= 2 scanned files; distinct = fingerprint of every file path and content")
+	run.SetRule("case = generated source tree (1-7 directories of depth 0-5, 0-3 scanned .go files per directory; one tree in 50 has 12-30 directories with 3-9 files each, the size of a real kernel tree; 0-6 annotated functions per file with 1-3 directives each mixed with other directives/prose/block comments, plus look-alikes: annotations in _test.go and non-.go files, on var/const/type/grouped/field/interface-method declarations, on function literals, inside bodies, in block comments, in raw strings, detached by a blank line, trailing the previous line, after a function, ordinary comments mentioning the directive, other go: directives), written to disk; FindRedirects runs 20 times inside it; then FindRedirects + CompleteRedirects run twice from scratch against a synthetic ELF64 image (random section order and padding, .goredirectstbl with 0-3 spare entries, symbol table in random order with every source/destination symbol at a distinct address plus look-alike names) and the file is compared byte for byte with the expected image; non-trivial = expected table has >= 2 entries AND the tree contains >= 1 look-alike AND >= 2 scanned files; distinct = fingerprint of every file path and content")
 	run.Assume("the process changes its working directory into the tree, as kbuild is started inside the kernel directory; FindRedirects is driven on a fresh Context per repetition")
 	run.Assume("generated files are checked to parse (go/parser, syntax only) before the code under test sees them, because a parse failure makes FindRedirects exit the process; the parser is not used by the oracle")
 	run.Assume("expected destination = \"" + c20Prefix + "\" + \"/<dir>\" for every directory component + \".\" + function name, i.e. the import path of the directory, not the package clause")
@@ -976,6 +989,10 @@ func TestVerifC20(t *testing.T) {
 			lookalikes += g.catSeen[cat]
 		}
 		scannedFiles = len(g.perFile)
+		run.Max("max_scanned_files_in_one_tree", int64(scannedFiles))
+		if scannedFiles > 64 {
+			run.Count("trees_with_more_than_64_scanned_files", 1)
+		}
 
 		// self-checks of the harness: files parse; generator record == line scanner
 		fset := token.NewFileSet()
